@@ -118,6 +118,10 @@ func TestVerifDemoC09(t *testing.T) {
 		fmt.Println("REPLAY-UNSUPPORTED the demo drives HTTP/1.1 only")
 		return
 	}
+	clientProtos := []string{"http/1.1"}
+	if m["alpn"] == 2 {
+		clientProtos = nil // the counterexample is a client that offers no ALPN at all
+	}
 	cert := demoCert(t)
 	sawTLS := make(chan bool, 1)
 	h := http.HandlerFunc(func(w http.ResponseWriter, r *http.Request) { sawTLS <- r.TLS != nil; w.WriteHeader(204) })
@@ -125,7 +129,7 @@ func TestVerifDemoC09(t *testing.T) {
 	server.setupServe()
 	cli, srv := net.Pipe()
 	go server.serveConn(srv)
-	c := tls.Client(cli, &tls.Config{InsecureSkipVerify: true, ServerName: "demo", NextProtos: []string{"http/1.1"}})
+	c := tls.Client(cli, &tls.Config{InsecureSkipVerify: true, ServerName: "demo", NextProtos: clientProtos})
 	c.SetDeadline(time.Now().Add(5 * time.Second))
 	if err := c.Handshake(); err != nil {
 		fmt.Println("REPLAY-UNSUPPORTED handshake failed:", err)
